@@ -35,7 +35,7 @@ def inject(rng, text):
                        "redecl_as_const", "redecl_bank_signal", "dup_register", "assign_twice", "assign_twice_builtin",
                        "read_undeclared", "assign_undeclared", "assign_bank_out", "assign_builtin_out", "assign_const",
                        "assign_preamble_const", "const_reads_wire", "default_reads_wire", "partial_disabled_ok",
-                       "assign_twice_in_chain", "assign_twice_in_chain"])
+                       "assign_twice_in_chain", "assign_twice_in_chain", "bad_bank_name"])
 
     def drop_assign(name):
         out = []
@@ -142,6 +142,13 @@ def inject(rng, text):
                 new.append(l)
             if done:
                 return new, "DoubleAssignedWire", w, kind
+    if kind == "bad_bank_name" and banks:
+        # a bank name is one lower-case then one upper-case letter
+        b = rng.choice(banks)
+        bad = rng.choice([b.group(1).upper() + b.group(2), b.group(1) + b.group(2).lower(), b.group(1) + "9",
+                          b.group(1) + b.group(2) + "x", b.group(1), "_" + b.group(2), b.group(1) + "_"])
+        old = "register %s%s { %s }" % (b.group(1), b.group(2), b.group(3))
+        return [("register %s { %s }" % (bad, b.group(3))) if l == old else l for l in lines], "InvalidRegisterBankName", bad, kind
     if kind == "assign_twice_builtin":
         w = rng.choice([n for n in assigned if n in ("pc", "Stat", "reg_srcA", "mem_addr", "reg_dstE")])
         return add("%s = 0;" % w), "DoubleAssignedWire", w, kind
@@ -220,7 +227,7 @@ def check(report, tier, seed):
     report.coverage["evaluations"] = len(cases)
     report.coverage["distinct_nontrivial"] = len(set(c["hcl"] for c in cases.values() if c["fault"] != "none"))
     report.coverage["rule"] = ("a correct random program (1-12, thorough up to 40 wires, banks, register file, memory) with exactly one injected driver fault "
-                               "of a known kind on a known name (22 fault classes incl. a name repeated within one chained assignment, over plain wires, constants incl. preamble ones, bank inputs/outputs, "
+                               "of a known kind on a known name (23 fault classes incl. malformed bank names, a name repeated within one chained assignment, over plain wires, constants incl. preamble ones, bank inputs/outputs, "
                                "stall/bubble, built-in inputs/outputs), or none; oracle 1: rejected with a diagnostic of that kind naming that wire / accepted "
                                "when fault-free; oracle 2: verdict, diagnostic multiset and compiled program equal the model's build_program")
     report.coverage["distribution"] = dict(stats, **{"fault_" + k2: v2 for k2, v2 in by.items()})
